@@ -24,7 +24,7 @@ def _hook(run: Run):
         if isinstance(f, tuple) and f and f[0] == "external":
             name = f[1].replace(":", ".")
             base = name.split(".")[-1]
-            if name.split(".")[0] in ("json", "re", "hashlib", "operator", "functools", "itertools", "collections", "bisect", "copy"):
+            if name.split(".")[0] in ("json", "re", "hashlib", "operator", "functools", "itertools", "collections", "bisect", "copy", "heapq", "dataclasses"):
                 return NotImplemented        # interpreted (or the real, pure library function) by the interpreter itself
             if base in ("bisect", "bisect_left", "bisect_right", "deepcopy", "copy", "ceil", "floor"):
                 if base in ("ceil", "floor") and len(args) == 1 and isinstance(args[0], (int, float)):
